@@ -46,3 +46,30 @@ Theorem C08_validator_reports_first_failing o file b pat content pre l post :
    Ok [key_diag b (trim_key (N.of_nat (length pre)) l) V_PATTERN sev [pat]]).
 Proof. exact (line_pattern_first_fail o file b pat content pre l post). Qed.
 Print Assumptions C08_validator_reports_first_failing.
+
+(* Conversely every diagnostic of this rule designates a line that fails the regex, preceded only by passing lines (no false report). *)
+Theorem C08_diagnostic_only_from_failing_line o file b pat content d :
+  get_attr (T "line-pattern") (b_attrs b) = Some pat ->
+  o_rx_ok o pat = Some true ->
+  content_of file b = Ok content ->
+  line_pattern o file b = Ok [d] ->
+  exists pre l post sev, lines content = pre ++ l :: post /\ Forall (lp_passes o pat) pre /\
+    lp_fails o pat l /\ sev_of (b_attrs b) = Ok sev /\
+    d = key_diag b (trim_key (N.of_nat (length pre)) l) V_PATTERN sev [pat].
+Proof. exact (line_pattern_diag_inv o file b pat content d). Qed.
+Print Assumptions C08_diagnostic_only_from_failing_line.
+
+(* Complete outcome table: silent when every line passes, else the first failing line is reported (or its severity error), else a regex-oracle table miss; nothing else. *)
+Theorem C08_outcome_table o file b pat content :
+  get_attr (T "line-pattern") (b_attrs b) = Some pat ->
+  o_rx_ok o pat = Some true ->
+  content_of file b = Ok content ->
+  (Forall (lp_passes o pat) (lines content) /\ line_pattern o file b = Ok []) \/
+  (exists pre l post, lines content = pre ++ l :: post /\ Forall (lp_passes o pat) pre /\
+     lp_fails o pat l /\
+     line_pattern o file b =
+     (let? sev := sev_of (b_attrs b) in
+      Ok [key_diag b (trim_key (N.of_nat (length pre)) l) V_PATTERN sev [pat]])) \/
+  line_pattern o file b = Err E_ORACLE_MISS.
+Proof. exact (line_pattern_outcomes o file b pat content). Qed.
+Print Assumptions C08_outcome_table.
